@@ -74,6 +74,15 @@ def draw_config(rng, wl, tier):
                          # mask, read, set_mask({}): compared with the analysis of the same data without a mask
                          "history_clear": rng.randrange(1, 10**6) if rng.random() < 0.08 else None},
     }
+    if wl["kind"] == "drt" and wl["kwargs"].get("method") in ("lm", "tr-nnls"):
+        # entry points without a fan-out of their own: most runs spend their budget on *another data set*
+        # (other noise realisation, one more or one fewer masked point) instead of another schedule - the
+        # identities are judged on every result, the comparison with the reference is skipped for them
+        if rng.random() < 0.75:
+            cfg["data_variant"]["reseed"] = rng.randrange(1, 10**6)
+            cfg["data_variant"]["extra_mask"] = rng.random() < 0.5
+            cfg["data_variant"]["history"] = None
+            cfg["data_variant"]["history_clear"] = None
     cfg["in_child"] = rng.random() < 0.12
     # history fault: the same analysis on another data set, with the same worker count, earlier in the process
     cfg["decoy"] = rng.random() < 0.08
@@ -81,10 +90,16 @@ def draw_config(rng, wl, tier):
 
 
 def _variant(wl, dv):
-    if not dv or (dv.get("garbage") is None and dv.get("order", "desc") == "desc" and dv.get("history") is None and dv.get("history_clear") is None):
+    if not dv or (dv.get("garbage") is None and dv.get("order", "desc") == "desc" and dv.get("history") is None and dv.get("history_clear") is None and dv.get("reseed") is None):
         return wl
     w2 = dict(wl)
     w2["data"] = dict(wl["data"])
+    if dv.get("reseed") is not None:
+        w2["data"]["noise_seed"] = dv["reseed"]
+        if dv.get("extra_mask"):
+            free = [i for i in range(w2["data"]["n"]) if i not in w2["data"]["mask"]]
+            if len(free) > 6:
+                w2["data"]["mask"] = sorted(w2["data"]["mask"] + [free[dv["reseed"] % len(free)]])
     if dv.get("history_clear") is not None:
         w2["data"]["mask"] = []
         w2["data"]["history_clear"] = dv["history_clear"]
@@ -205,7 +220,9 @@ def _evaluate(wl, cfg, dec, ctx, after_decoy=False):
             add("identities", f"{wl['entry']}({opts}) serial reference -> {v}", result=cls, field=field)
         for c in ref.input_changes or []:
             add("input-untouched", f"{wl['entry']}({opts}) serial reference: {c}")
-    if ref.status != "skipped":
+    if dv.get("reseed") is not None:
+        out.probes["variant_other_data"] = 1
+    elif ref.status != "skipped":
         d = outcome_diff(ref, out)
         if d:
             what = []
